@@ -162,10 +162,10 @@ theorem conv_accepted_from (p : Proto W I) (hf : p.firstByte = false) (hb : p.bu
   have hne : reads ≠ [] := by
     intro h0
     rw [h0] at hflat
-    simp at hflat
-    rw [← hflat] at hsp
-    simp [splitCRLF] at hsp
-    rw [← hsp] at h
+    have hst : stream = [] := hflat.symm
+    rw [hst, splitCRLF_nil] at hsp
+    have : ls = [] := (Prod.mk.inj hsp).1.symm
+    rw [this] at h
     exact h
   have hs := (runReads_sim_whole S p reads hne hall).obs
   rw [hflat] at hs
@@ -230,14 +230,14 @@ theorem hexlify_length (x : Bytes) : (hexlify x).length = 2 * x.length := by
 /-- DBUS_COOKIE_SHA1 with the right cookie is accepted under every splitting: there are a challenge and a
 cookie (the ones sent in the DATA reply and stored in the user's keyring file under the id sent) such
 that the client answering `hexlify(sha1(challenge:cc:cookie))` is authenticated as `user`. -/
-theorem cookie_accepted (guid : Bytes) (w : RealWorld) (user cc : Bytes) (e : PwEnt)
-    (hu0 : user ≠ []) (hua : isAscii user = true) (hup : parseInt user = none) (hul : user.length ≤ 8000)
+theorem cookie_accepted (guid : Bytes) (w : RealWorld) (arg user cc : Bytes) (e : PwEnt)
+    (hu0 : arg ≠ []) (hua : isAscii arg = true) (hup : resolveUser w.cfg arg = some user) (hul : arg.length ≤ 8000)
     (hun : getpwnam w.cfg user = some e) (hud : lookupDir w e.home ≠ .bad)
     (hcc : cc ≠ []) (hncc : NoSpace cc) (hcca : isAscii cc = true) (hccl : cc.length ≤ 8000)
     (hsha : ∀ x, (w.cfg.sha1 x).length = 20) :
     ∃ (chal cookie : Bytes),
       ∀ (reads : List Bytes), (∀ r ∈ reads, r ≠ []) →
-        reads.flatten = 0 :: encodeLines [cookieAuthLine user, cookieDataLine w.cfg.sha1 chal cc cookie, lit "BEGIN"] →
+        reads.flatten = 0 :: encodeLines [cookieAuthLine arg, cookieDataLine w.cfg.sha1 chal cc cookie, lit "BEGIN"] →
         (runReads real (Proto.init guid w) reads).authenticated = true ∧
         (runReads real (Proto.init guid w) reads).closed = false ∧
         (runReads real (Proto.init guid w) reads).guid = some user := by
@@ -247,7 +247,7 @@ theorem cookie_accepted (guid : Bytes) (w : RealWorld) (user cc : Bytes) (e : Pw
     rw [hx] at this
     cases this
   obtain ⟨c1, cid, a1, a2, a3, a4, a5, a6, a7, a8, a9, a10⟩ :=
-    cookie_lines (Server.init guid w) user cc e rfl hu0 hua hup hun hud hcc hncc hcca hsha'
+    cookie_lines (Server.init guid w) arg user cc e rfl hu0 hua hup hun hud hcc hncc hcca hsha'
   have hw : (Server.init guid w : Server RealWorld Inst).world = w := rfl
   have hinit : (Server.init guid w : Server RealWorld Inst).authenticated = false := rfl
   rw [hw] at a5 a7 a8 a9 a10
@@ -257,7 +257,7 @@ theorem cookie_accepted (guid : Bytes) (w : RealWorld) (user cc : Bytes) (e : Pw
   have hlit1 : NoCR (lit "AUTH DBUS_COOKIE_SHA1 ") := by unfold NoCR; decide
   have hlit2 : NoCR (lit "DATA ") := by unfold NoCR; decide
   have hlit3 : NoCR (lit "BEGIN") := by unfold NoCR; decide
-  have hnc : ∀ l ∈ [cookieAuthLine user, cookieDataLine w.cfg.sha1 c1.challenge cc c1.cookie, lit "BEGIN"], NoCR l := by
+  have hnc : ∀ l ∈ [cookieAuthLine arg, cookieDataLine w.cfg.sha1 c1.challenge cc c1.cookie, lit "BEGIN"], NoCR l := by
     intro l hl
     simp only [List.mem_cons, List.not_mem_nil, or_false] at hl
     rcases hl with rfl | rfl | rfl
@@ -265,7 +265,7 @@ theorem cookie_accepted (guid : Bytes) (w : RealWorld) (user cc : Bytes) (e : Pw
     · exact noCR_append _ _ hlit2 (noCR_of_noSpace _ (noSpace_hexlify _))
     · exact hlit3
   have hsp := splitCRLF_encode _ hnc
-  have hl1 : (cookieAuthLine user).length ≤ maxAuthLength := by
+  have hl1 : (cookieAuthLine arg).length ≤ maxAuthLength := by
     unfold cookieAuthLine
     rw [List.length_append, hexlify_length]
     have : (lit "AUTH DBUS_COOKIE_SHA1 ").length = 22 := by decide
@@ -278,10 +278,196 @@ theorem cookie_accepted (guid : Bytes) (w : RealWorld) (user cc : Bytes) (e : Pw
     have : maxAuthLength = 16384 := rfl
     omega
   have hconv : convOk real (Server.init guid w)
-      [cookieAuthLine user, cookieDataLine w.cfg.sha1 c1.challenge cc c1.cookie, lit "BEGIN"] :=
+      [cookieAuthLine arg, cookieDataLine w.cfg.sha1 c1.challenge cc c1.cookie, lit "BEGIN"] :=
     ⟨a1, a2, hl1, a5, a7, hl2, a8, a9, by decide⟩
-  have := conv_accepted real guid w (encodeLines [cookieAuthLine user, cookieDataLine w.cfg.sha1 c1.challenge cc c1.cookie, lit "BEGIN"])
-    [cookieAuthLine user, cookieDataLine w.cfg.sha1 c1.challenge cc c1.cookie, lit "BEGIN"] hsp hconv reads hall hflat
+  have := conv_accepted real guid w (encodeLines [cookieAuthLine arg, cookieDataLine w.cfg.sha1 c1.challenge cc c1.cookie, lit "BEGIN"])
+    [cookieAuthLine arg, cookieDataLine w.cfg.sha1 c1.challenge cc c1.cookie, lit "BEGIN"] hsp hconv reads hall hflat
+  simp only [convFinal] at this
+  refine ⟨this.1, this.2.1, ?_⟩
+  rw [this.2.2]
+  exact a10
+
+/-! ## the forms real clients use, from any open state at a line boundary -/
+
+/-- `k` times NEGOTIATE_UNIX_FD, then BEGIN. -/
+def tailLines (k : Nat) : List Bytes := List.replicate k (lit "NEGOTIATE_UNIX_FD") ++ [lit "BEGIN"]
+
+theorem tailLines_noCR (k : Nat) : ∀ l ∈ tailLines k, NoCR l := by
+  intro l hl
+  unfold tailLines at hl
+  rcases List.mem_append.1 hl with h | h
+  · rw [List.eq_of_mem_replicate h]; unfold NoCR; decide
+  · simp at h; rw [h]; unfold NoCR; decide
+
+/-- In WaitingForBegin with a mechanism whose user name is known: any number of NEGOTIATE_UNIX_FD, then BEGIN
+authenticates. -/
+theorem conv_tail (s : Server RealWorld Inst) (k : Nat) (n : Bytes) (i : Inst) (u : Bytes)
+    (hs : s.state = .waitingForBegin) (hc : s.cur = some (n, i)) (hu : real.userName s.world i = some u)
+    (ha : s.authenticated = false) :
+    convOk real s (tailLines k) ∧ (convFinal real s (tailLines k)).guid = some u := by
+  obtain ⟨b1, b2, b3⟩ := begin_line s n i u hs hc hu
+  have hb : convOk real s [lit "BEGIN"] := ⟨b1, b2, by decide⟩
+  have := convOk_negotiate real s k [lit "BEGIN"] (by simp) ha hb
+  unfold tailLines
+  refine ⟨this.1, ?_⟩
+  rw [this.2]
+  exact b3
+
+/-- The hypotheses "open, unauthenticated, at a line boundary, waiting for AUTH". -/
+structure ReadyForAuth (p : Proto RealWorld Inst) : Prop where
+  first : p.firstByte = false
+  buf : p.buffer = []
+  open_ : p.closed = false
+  alive : p.crashed = false
+  unauth : p.authenticated = false
+  state : p.srv.state = .waitingForAuth
+  srvUnauth : p.srv.authenticated = false
+
+theorem authLineOf_noCR (mech : Bytes) (resp : Option Bytes) (hm : NoCR mech) : NoCR (authLineOf mech resp) := by
+  have hl : NoCR (lit "AUTH ") := by unfold NoCR; decide
+  cases resp with
+  | none => exact noCR_append _ _ hl hm
+  | some t =>
+    refine noCR_append _ _ hl (noCR_append _ _ hm ?_)
+    intro b hb
+    simp only [List.mem_cons] at hb
+    rcases hb with rfl | hb
+    · decide
+    · exact noCR_of_noSpace _ (noSpace_hexlify _) b hb
+
+theorem authLineOf_length (mech : Bytes) (resp : Option Bytes) (hm : mech.length ≤ 100)
+    (hr : ∀ t, resp = some t → t.length ≤ 8000) : (authLineOf mech resp).length ≤ maxAuthLength := by
+  have h5 : (lit "AUTH ").length = 5 := by decide
+  have hmax : maxAuthLength = 16384 := rfl
+  cases resp with
+  | none => simp only [authLineOf, List.length_append]; omega
+  | some t =>
+    have := hr t rfl
+    simp only [authLineOf, List.length_append, List.length_cons, hexlify_length]; omega
+
+/-- ANONYMOUS, with or without an initial response (txdbus's own client sends the trace `txdbus`), any number of
+NEGOTIATE_UNIX_FD before BEGIN, from any open state waiting for AUTH (so also after earlier rejections), under
+every splitting. -/
+theorem anonymous_accepted_from (p : Proto RealWorld Inst) (hp : ReadyForAuth p) (resp : Option Bytes)
+    (hr : GoodResp resp) (hrl : ∀ t, resp = some t → t.length ≤ 8000) (k : Nat)
+    (reads : List Bytes) (hall : ∀ r ∈ reads, r ≠ [])
+    (hflat : reads.flatten = encodeLines (authLineOf (lit "ANONYMOUS") resp :: tailLines k)) :
+    (runReads real p reads).authenticated = true ∧ (runReads real p reads).closed = false ∧
+    (runReads real p reads).guid = some anonymousUser := by
+  obtain ⟨a1, _, a3⟩ := anonymous_lines_gen p.srv resp hp.state hr
+  have ht := conv_tail (handle real p.srv (authLineOf (lit "ANONYMOUS") resp)).srv k (lit "ANONYMOUS") .anon
+    anonymousUser (by rw [a3]) (by rw [a3]) (by rw [a3]; rfl) (by rw [a3]; exact hp.srvUnauth)
+  have hlen := authLineOf_length (lit "ANONYMOUS") resp (by decide) hrl
+  have hconv : convOk real p.srv (authLineOf (lit "ANONYMOUS") resp :: tailLines k) :=
+    convOk_cons real p.srv _ _ (by simp [tailLines]) a1 (by rw [a3]; exact hp.srvUnauth) hlen ht.1
+  have hnc : ∀ l ∈ authLineOf (lit "ANONYMOUS") resp :: tailLines k, NoCR l := by
+    intro l hl
+    rcases List.mem_cons.1 hl with rfl | hl
+    · exact authLineOf_noCR _ _ (by unfold NoCR; decide)
+    · exact tailLines_noCR k l hl
+  have := conv_accepted_from real p hp.first hp.buf hp.open_ hp.alive hp.unauth
+    (encodeLines (authLineOf (lit "ANONYMOUS") resp :: tailLines k)) (authLineOf (lit "ANONYMOUS") resp :: tailLines k)
+    (splitCRLF_encode _ hnc) hconv reads hall hflat
+  refine ⟨this.1, this.2.1, ?_⟩
+  rw [this.2.2, convFinal_cons]
+  exact ht.2
+
+/-- EXTERNAL when the peer has credentials with a passwd entry, with or without a claimed identity
+(`AUTH EXTERNAL 31303030` is what libdbus, GDBus and sd-bus send), `DATA`, any number of NEGOTIATE_UNIX_FD, BEGIN;
+from any open state waiting for AUTH, under every splitting. -/
+theorem external_accepted_from (p : Proto RealWorld Inst) (hp : ReadyForAuth p) (uid : Int) (e : PwEnt)
+    (hc : p.srv.world.cfg.creds = some uid) (hu : getpwuidI p.srv.world.cfg uid = some e)
+    (resp : Option Bytes) (hr : GoodResp resp) (hrl : ∀ t, resp = some t → t.length ≤ 8000) (k : Nat)
+    (reads : List Bytes) (hall : ∀ r ∈ reads, r ≠ [])
+    (hflat : reads.flatten = encodeLines (authLineOf (lit "EXTERNAL") resp :: lit "DATA" :: tailLines k)) :
+    (runReads real p reads).authenticated = true ∧ (runReads real p reads).closed = false ∧
+    (runReads real p reads).guid = some e.name := by
+  obtain ⟨a1, _, a3⟩ := external_line_gen p.srv resp uid e hp.state hr hc hu
+  obtain ⟨d1, _, d3⟩ := external_data_line (handle real p.srv (authLineOf (lit "EXTERNAL") resp)).srv uid e
+    (by rw [a3]) (by rw [a3]) (by rw [a3]; exact hu)
+  have hname : real.userName (handle real (handle real p.srv (authLineOf (lit "EXTERNAL") resp)).srv (lit "DATA")).srv.world
+      (.ext true (some uid)) = some e.name := by
+    rw [d3, a3, real_user_ext]
+    show Option.map (fun x => x.name) (getpwuidI p.srv.world.cfg uid) = some e.name
+    rw [hu]; rfl
+  have ht := conv_tail (handle real (handle real p.srv (authLineOf (lit "EXTERNAL") resp)).srv (lit "DATA")).srv k
+    (lit "EXTERNAL") (.ext true (some uid)) e.name (by rw [d3]) (by rw [d3, a3]) hname
+    (by rw [d3, a3]; exact hp.srvUnauth)
+  have hlen := authLineOf_length (lit "EXTERNAL") resp (by decide) hrl
+  have hconv2 : convOk real (handle real p.srv (authLineOf (lit "EXTERNAL") resp)).srv (lit "DATA" :: tailLines k) :=
+    convOk_cons real _ _ _ (by simp [tailLines]) d1 (by rw [d3, a3]; exact hp.srvUnauth) (by decide) ht.1
+  have hconv : convOk real p.srv (authLineOf (lit "EXTERNAL") resp :: lit "DATA" :: tailLines k) :=
+    convOk_cons real p.srv _ _ (by simp) a1 (by rw [a3]; exact hp.srvUnauth) hlen hconv2
+  have hnc : ∀ l ∈ authLineOf (lit "EXTERNAL") resp :: lit "DATA" :: tailLines k, NoCR l := by
+    intro l hl
+    rcases List.mem_cons.1 hl with rfl | hl
+    · exact authLineOf_noCR _ _ (by unfold NoCR; decide)
+    · rcases List.mem_cons.1 hl with rfl | hl
+      · unfold NoCR; decide
+      · exact tailLines_noCR k l hl
+  have := conv_accepted_from real p hp.first hp.buf hp.open_ hp.alive hp.unauth
+    (encodeLines (authLineOf (lit "EXTERNAL") resp :: lit "DATA" :: tailLines k))
+    (authLineOf (lit "EXTERNAL") resp :: lit "DATA" :: tailLines k)
+    (splitCRLF_encode _ hnc) hconv reads hall hflat
+  refine ⟨this.1, this.2.1, ?_⟩
+  rw [this.2.2, convFinal_cons, convFinal_cons]
+  exact ht.2
+
+/-- DBUS_COOKIE_SHA1 with the right cookie, user given by name or by uid (`resolveUser`), from any open state
+waiting for AUTH, under every splitting. -/
+theorem cookie_accepted_from (p : Proto RealWorld Inst) (hp : ReadyForAuth p) (arg user cc : Bytes) (e : PwEnt)
+    (hu0 : arg ≠ []) (hua : isAscii arg = true) (hup : resolveUser p.srv.world.cfg arg = some user)
+    (hul : arg.length ≤ 8000) (hun : getpwnam p.srv.world.cfg user = some e)
+    (hud : lookupDir p.srv.world e.home ≠ .bad)
+    (hcc : cc ≠ []) (hncc : NoSpace cc) (hcca : isAscii cc = true) (hccl : cc.length ≤ 8000)
+    (hsha : ∀ x, (p.srv.world.cfg.sha1 x).length = 20) :
+    ∃ (chal cookie : Bytes),
+      ∀ (reads : List Bytes), (∀ r ∈ reads, r ≠ []) →
+        reads.flatten =
+          encodeLines [cookieAuthLine arg, cookieDataLine p.srv.world.cfg.sha1 chal cc cookie, lit "BEGIN"] →
+        (runReads real p reads).authenticated = true ∧ (runReads real p reads).closed = false ∧
+        (runReads real p reads).guid = some user := by
+  have hsha' : ∀ x, p.srv.world.cfg.sha1 x ≠ [] := by
+    intro x hx
+    have := hsha x
+    rw [hx] at this
+    cases this
+  obtain ⟨c1, cid, a1, a2, a3, a4, a5, a6, a7, a8, a9, a10⟩ :=
+    cookie_lines p.srv arg user cc e hp.state hu0 hua hup hun hud hcc hncc hcca hsha'
+  rw [hp.srvUnauth] at a2 a7
+  refine ⟨c1.challenge, c1.cookie, ?_⟩
+  intro reads hall hflat
+  have hlit1 : NoCR (lit "AUTH DBUS_COOKIE_SHA1 ") := by unfold NoCR; decide
+  have hlit2 : NoCR (lit "DATA ") := by unfold NoCR; decide
+  have hlit3 : NoCR (lit "BEGIN") := by unfold NoCR; decide
+  have hnc : ∀ l ∈ [cookieAuthLine arg, cookieDataLine p.srv.world.cfg.sha1 c1.challenge cc c1.cookie, lit "BEGIN"],
+      NoCR l := by
+    intro l hl
+    simp only [List.mem_cons, List.not_mem_nil, or_false] at hl
+    rcases hl with rfl | rfl | rfl
+    · exact noCR_append _ _ hlit1 (noCR_of_noSpace _ (noSpace_hexlify _))
+    · exact noCR_append _ _ hlit2 (noCR_of_noSpace _ (noSpace_hexlify _))
+    · exact hlit3
+  have hsp := splitCRLF_encode _ hnc
+  have hl1 : (cookieAuthLine arg).length ≤ maxAuthLength := by
+    unfold cookieAuthLine
+    rw [List.length_append, hexlify_length]
+    have : (lit "AUTH DBUS_COOKIE_SHA1 ").length = 22 := by decide
+    have : maxAuthLength = 16384 := rfl
+    omega
+  have hl2 : (cookieDataLine p.srv.world.cfg.sha1 c1.challenge cc c1.cookie).length ≤ maxAuthLength := by
+    unfold cookieDataLine cookieHash
+    simp only [List.length_append, hexlify_length, List.length_cons, hsha]
+    have : (lit "DATA ").length = 5 := by decide
+    have : maxAuthLength = 16384 := rfl
+    omega
+  have hconv : convOk real p.srv
+      [cookieAuthLine arg, cookieDataLine p.srv.world.cfg.sha1 c1.challenge cc c1.cookie, lit "BEGIN"] :=
+    ⟨a1, a2, hl1, a5, a7, hl2, a8, a9, by decide⟩
+  have := conv_accepted_from real p hp.first hp.buf hp.open_ hp.alive hp.unauth
+    (encodeLines [cookieAuthLine arg, cookieDataLine p.srv.world.cfg.sha1 c1.challenge cc c1.cookie, lit "BEGIN"])
+    [cookieAuthLine arg, cookieDataLine p.srv.world.cfg.sha1 c1.challenge cc c1.cookie, lit "BEGIN"]
+    hsp hconv reads hall hflat
   simp only [convFinal] at this
   refine ⟨this.1, this.2.1, ?_⟩
   rw [this.2.2]
